@@ -575,6 +575,8 @@ class Printer:
     def e_CallExpr(self, n):
         callee = self.strip_callee(n['inner'][0])
         args = n['inner'][1:]
+        # defaulted trailing arguments are not printed (as for member calls and constructors): the stub is the overload with the explicit arguments
+        while args and args[-1].get('kind') == 'CXXDefaultArgExpr': args = args[:-1]
         if callee.get('kind') != 'DeclRefExpr': raise ExtractionBreak('call through ' + str(callee.get('kind')))
         r = callee['referencedDecl']; name = r['name']
         ret, ptypes = fn_type_parts(r['type']['qualType'])
